@@ -371,7 +371,7 @@ def units_rule(repo, res, rule="UNITS"):
             res.undecided(rule, f"{rule}:HumanSpan::{name}", "function not found")
             continue
         envs = A.collect_envs(fn)
-        ss = [s for s in P.ctor_sites(fn.body, "Self") if s["k"] == "Struct"]
+        ss = [s for s in list(P.ctor_sites(fn.body, "Self")) + list(P.ctor_sites(fn.body, "HumanSpan")) if s["k"] == "Struct"]
         ok = len(ss) == 1
         if ok:
             ln = A.resolve(P.ctor_field(ss[0], "line"), envs.get(id(ss[0])))
